@@ -245,7 +245,16 @@ pub fn compare(want: &WorldSig, got: &WorldSig, complete_imports: bool) -> Vec<S
                 ItemSig::Type(_) => false,
             };
             if needs && !got.imports.contains_key(n) {
-                d.push(format!("import `{n}` missing from component"));
+                // wit-component resolves a module import `ns:pkg/i@1.0.0` to a semver-compatible
+                // `ns:pkg/i@1.0.1` of the same world when both are imported, so only one of them
+                // shows up in the component: tolerated when another version of the same
+                // interface is present.
+                let base = n.split('@').next().unwrap_or(n);
+                let other_version = n.contains('@')
+                    && got.imports.keys().any(|g| g != n && g.split('@').next() == Some(base) && g.contains('@'));
+                if !other_version {
+                    d.push(format!("import `{n}` missing from component"));
+                }
             }
         }
     }
